@@ -1192,11 +1192,10 @@ deriving Repr
 /-- the span table of a token list -/
 def spanTab (toks : List RTok) : SpanTab := tabOf (toks.map fun t => (t.s, t.e))
 
-/-- The ranged reference parser: one `Test`, returning the ranged tree and the unconsumed tokens. -/
-def parseR (fuel : Nat) (toks : List RTok) : Option (RExpr × List RTok) :=
-  match parseRTest (spanTab toks) fuel (toks.map (·.tok)) with
-  | some (e, rest) => some (e, toks.drop (toks.length - rest.length))
-  | none => none
+/-- The ranged reference parser: one `Test` (the nonterminal `PV.C11.parseRef` reads), returning the ranged tree
+    and the tokens it did not consume. -/
+def parseR (fuel : Nat) (toks : List RTok) : Option (RExpr × List Tok) :=
+  parseRTest (spanTab toks) fuel (toks.map (·.tok))
 
 /-- whole-input parse in expression mode (what `Expr::parse` / `Mode::Expression` does) -/
 def parseRExpression (toks : List RTok) : Option RExpr :=
